@@ -46,7 +46,12 @@ fn push_meta(line: &mut String, v: &Voice) {
 
 fn mutate_meta(rng: &mut Rng, v: &mut Voice) -> &'static str {
     let ns = v.stream_models.len();
-    match rng.below(11) {
+    match rng.below(14) {
+        // option lists that are a subset / superset / permutation / value change of the other voices' list
+        // (seeded change C19f: options compared by a one-directional containment test)
+        11 => { let i = rng.below(ns); if v.stream_models[i].metadata.option.pop().is_some() { "option_removed" } else { v.stream_models[i].metadata.option.push("GAMMA=0".into()); "option" } }
+        12 => { let o = &mut v.stream_models[0].metadata.option; if o.is_empty() { o.push("ALPHA=0.5".into()); "option" } else { o.clear(); "option_cleared" } }
+        13 => { let o = &mut v.stream_models[0].metadata.option; if o.len() >= 2 { o.swap(0, 1); "option_reordered" } else if let Some(x) = o.get_mut(0) { x.push('1'); "option_value" } else { o.push("ALPHA=0.5".into()); "option" } }
         0 => { v.metadata.sampling_frequency += 1; "sampling_rate" }
         1 => { v.metadata.frame_period += 1; "frame_period" }
         2 => { v.metadata.num_states += 1; "states" }
@@ -157,6 +162,12 @@ fn res_tok(r: &Result<(), WeightError>) -> &'static str {
 
 /// k compatible small voices (same metadata seed, different trees and PDFs)
 pub fn compatible_voices(rng: &mut Rng, k: usize, pool: &[(String, Vec<String>)], identical: bool) -> (Vec<Arc<Voice>>, VoiceCfg) {
+    compatible_voices2(rng, k, pool, identical, false)
+}
+
+/// `coarse_first`: every tree of the first voice is a single leaf, so all labels share voice 0's leaf while the other voices
+/// separate them (seeded change C10f: blends memoised by the leaf the first voice selects)
+pub fn compatible_voices2(rng: &mut Rng, k: usize, pool: &[(String, Vec<String>)], identical: bool, coarse_first: bool) -> (Vec<Arc<Voice>>, VoiceCfg) {
     let cfg = VoiceCfg { nstream: rng.range(2, 3), stage: 0, nstate: rng.range(1, 4), max_leaves: 5 };
     let mseed = rng.next();
     let mut out = Vec::new();
@@ -167,7 +178,21 @@ pub fn compatible_voices(rng: &mut Rng, k: usize, pool: &[(String, Vec<String>)]
             continue;
         }
         let mut m = Rng(mseed);
-        let spec = VoiceSpec::random2(&mut m, rng, &cfg, pool);
+        let mut spec = VoiceSpec::random2(&mut m, rng, &cfg, pool);
+        if coarse_first && i == 0 {
+            let collapse = |ms: &mut crate::voices::ModelSpec| {
+                for (t, p) in ms.trees.iter_mut().zip(ms.pdfs.iter_mut()) {
+                    t.single = Some(1);
+                    t.rows.clear();
+                    p.truncate(1);
+                }
+            };
+            collapse(&mut spec.duration);
+            for st in spec.streams.iter_mut() {
+                collapse(&mut st.model);
+                if let Some(g) = st.gv.as_mut() { collapse(g); }
+            }
+        }
         let v = Arc::new(load_spec(&spec, &format!("c19_{}_{}", std::process::id(), i)));
         if first.is_none() {
             first = Some(v.clone());
@@ -197,7 +222,8 @@ pub fn gen_c19(seed: u64, thorough: bool) {
         let mut vs: Vec<Voice> = (0..k).map(|_| base.clone()).collect();
         let mut what = "none";
         if k >= 2 && rng.chance(0.75) {
-            let j = rng.range(1, k - 1);
+            // the odd one out at any position, the first included (an asymmetric comparison only shows one way round)
+            let j = rng.range(0, k - 1);
             what = mutate_meta(&mut rng, &mut vs[j]);
         }
         let mut line = String::from("vset");
@@ -299,7 +325,7 @@ pub fn gen_c10(seed: u64, thorough: bool) {
             ((0..k).map(|_| bundled.clone()).collect(), 3)
         } else {
             let k = rng.range(1, 4);
-            let (v, cfg) = compatible_voices(&mut rng, k, &pool, s % 6 == 4);
+            let (v, cfg) = compatible_voices2(&mut rng, k, &pool, s % 6 == 4, s % 6 == 2);
             (v, cfg.nstream)
         };
         let nv = vs.len();
@@ -324,7 +350,7 @@ pub fn gen_c10(seed: u64, thorough: bool) {
             let iw = engine.condition.get_interporation_weight_mut();
             set(&mut rng, &mut |w| iw.set_gv(i, w));
         }
-        let nlab = rng.range(1, 3);
+        let nlab = if s % 6 == 2 { rng.range(4, 8) } else { rng.range(1, 3) };
         let labels: Vec<jlabel::Label> = (0..nlab).map(|_| corpus[rng.below(corpus.len())].parse().unwrap()).collect();
         let iw = engine.condition.get_interporation_weight().clone();
         let models = Models::new(&labels, &engine.voices, &iw);
